@@ -146,17 +146,20 @@ func genC35(t *rapid.T) c35Scenario {
 	// on reload) run while decisions keep flowing. Every effective reload
 	// restarts the cache's 1 s maintenance ticker, so these scenarios last
 	// longer and only one actor reloads, at most every 1.2 s.
-	s.DropHeavy = rapid.IntRange(0, 2).Draw(t, "dropheavy") == 0
+	s.DropHeavy = rapid.IntRange(0, 2).Draw(t, "dropheavy") == 0 || os.Getenv("VERIF_C35_ONLY_DROPHEAVY") != "" // (knob for tuning runs)
 	if s.DropHeavy {
 		// 128..1024 per worker = 256..2048 filter slots: big enough not to
 		// saturate (>99%, the locked cycling path) within one maintenance tick,
 		// small enough to pass 50% within the first second of traffic
-		s.DroppedPerWorker = rapid.SampledFrom([]int{128, 256, 512, 1024}).Draw(t, "droppedpw")
+		s.DroppedPerWorker = rapid.SampledFrom([]int{32, 64, 128, 256, 512}).Draw(t, "droppedpw")
 		s.KeptPerWorker = rapid.SampledFrom([]int{2, 8, 32}).Draw(t, "keptpw")
-		// more workers = more filters that each go through the nil -> non-nil
-		// future transition once, and more decisions made in parallel
-		s.Workers = rapid.IntRange(4, 8).Draw(t, "workersdh")
-		s.LogLevel = rapid.SampledFrom([]string{"warn", "debug"}).Draw(t, "logleveldh")
+		// what matters is the rate of drop decisions at the moment the
+		// maintenance tick creates the future filter: no debug logging, and in
+		// half of the scenarios stress relief decides every span inline in the
+		// (many) HTTP handler goroutines
+		s.Workers = rapid.IntRange(2, 4).Draw(t, "workersdh")
+		s.LogLevel = "warn"
+		s.StressMode = rapid.SampledFrom([]string{"never", "always"}).Draw(t, "stressdh")
 		if vkit.Thorough() {
 			s.DurationMs = rapid.SampledFrom([]int{2500, 3500, 5000}).Draw(t, "durdh")
 		} else {
